@@ -222,14 +222,32 @@ func (fr *frame) builtin(b *ssa.Builtin, cc *ssa.CallCommon, args []T, st *State
 		return []T{fr.doAppend(cc, args, st, site)}
 	case "copy":
 		// copy(dst, src): havoc dst elements
+		n := c.fresh("copied", "Int")
 		if sl, ok := under(cc.Args[0].Type()).(*types.Slice); ok {
-			if _, isStruct := under(sl.Elem()).(*types.Struct); !isStruct {
+			_, isStruct := under(sl.Elem()).(*types.Struct)
+			_, srcIsSlice := under(cc.Args[1].Type()).(*types.Slice)
+			if !isStruct && srcIsSlice {
+				// exact model: n = min(len(dst), len(src)); dst[j] = src[j] (old
+				// contents, copy handles overlap) for j < n; every other cell keeps
+				// its value
+				h := c.R.CellHeapT(sl.Elem())
+				before := c.getHeap(st, h)
+				c.havocHeap(st, h)
+				after := c.getHeap(st, h)
+				dst, src := args[0], args[1]
+				c.assume(st, Eq(n, Ite(le(SLen(dst), SLen(src)), SLen(dst), SLen(src))))
+				c.emit("(assert (forall ((j Int)) (! (=> (and (<= 0 j) (< j %s)) (= (select %s (selem %s j)) (select %s (selem %s j)))) :pattern ((select %s (selem %s j))))))",
+					n.S, after.S, dst.S, before.S, src.S, after.S, dst.S)
+				c.emit("(assert (forall ((a Ref)) (! (=> (not (and (= (rroot a) (rroot (sarr %s))) (exists ((j Int)) (and (<= 0 j) (< j %s) (= a (selem %s j)))))) (= (select %s a) (select %s a))) :pattern ((select %s a)))))",
+					dst.S, n.S, dst.S, after.S, before.S, after.S)
+				return []T{n}
+			}
+			if !isStruct {
 				c.havocHeap(st, c.R.CellHeapT(sl.Elem()))
 			} else {
 				c.havocAll(st)
 			}
 		}
-		n := c.fresh("copied", "Int")
 		c.assume(st, And(le(IntLit(0), n), le(n, SLen(args[0]))))
 		return []T{n}
 	case "delete":
